@@ -1068,9 +1068,9 @@ def run_shard(ctx, spec):
     ctx.hyp(girmodel.cases(), spec['n'], shrink=os.environ.get('C06_SHRINK', '1') != '0')
 
 
-_GATES = [('k:function', 0.2), ('k:callback', 0.12), ('k:record', 0.25), ('k:union', 0.1), ('k:boxed', 0.06),
-          ('k:enumeration', 0.1), ('k:bitfield', 0.1), ('k:class', 0.2), ('k:interface', 0.13), ('k:constant', 0.12),
-          ('k:alias', 0.12), ('t:basic', 0.5), ('t:string-or-pointer', 0.4), ('t:iface-local', 0.3),
+_GATES = [('k:function', 0.2), ('k:callback', 0.1), ('k:record', 0.25), ('k:union', 0.08), ('k:boxed', 0.06),
+          ('k:enumeration', 0.07), ('k:bitfield', 0.07), ('k:class', 0.2), ('k:interface', 0.13), ('k:constant', 0.12),
+          ('k:alias', 0.1), ('t:basic', 0.5), ('t:string-or-pointer', 0.4), ('t:iface-local', 0.3),
           ('t:iface-foreign', 0.2), ('t:iface-alias', 0.05), ('t:array-C', 0.15), ('t:array-GLib.Array', 0.03),
           ('t:array-GLib.PtrArray', 0.03), ('t:array-GLib.ByteArray', 0.03), ('t:array-length', 0.02),
           ('t:array-fixed', 0.08), ('t:list', 0.15), ('t:hash', 0.1), ('t:error', 0.03), ('nested-container', 0.1),
